@@ -177,7 +177,24 @@ def observe_fit(idnt, kwargs, label="", post=None, fault=False):
         out["raised"] = type(exc).__name__
     finally:
         rec.active = False
-    if post and not out["raised"]:
+    out["rescan_ok"] = True
+    if post == "scan2" and not out["raised"]:
+        # the E(depth) scan asked for twice with different sample counts
+        # (plateau search off): each answer has the count that was asked for
+        try:
+            with warnings.catch_warnings():
+                warnings.simplefilter("ignore")
+                for nn in (7, 5, 9):
+                    idnt.fit_properties["optimal_fit_num_samples"] = nn
+                    e_, d_ = idnt.compute_emodulus_mindelta()
+                    if len(e_) != nn or len(d_) != nn:
+                        out["rescan_ok"] = False
+                idnt.fit_model()
+        except BaseException as exc:
+            if isinstance(exc, (KeyboardInterrupt, SystemExit)):
+                raise
+            out["post_raised"] = type(exc).__name__
+    elif post and not out["raised"]:
         try:
             run_post(idnt, post)
         except BaseException as exc:
@@ -462,6 +479,7 @@ def slim_for_tlc(r):
             "req_zero", "passes", "success", "success_flag_present",
             "k_not_one",
             "stored_cp_exp", "final_mask", "stale_keys", "xminmax_ok",
+            "rescan_ok",
             "scan", "rel"]
     r2 = {k: r[k] for k in keep}
     r2["passes"] = [{k: v for k, v in p.items() if k != "npts"}
